@@ -576,7 +576,11 @@ func scevBuilders(p *core.Program) map[*ssa.Function]bool {
 }
 
 // detMemo: the function returns a memoised result before doing anything else and stores results.
-func detMemo(f *ssa.Function) (bool, string) {
+func detMemo(f *ssa.Function, comp []*ssa.Function) (bool, string) {
+	inComp := map[*ssa.Function]bool{}
+	for _, g := range comp {
+		inComp[g] = true
+	}
 	if len(f.Params) == 0 {
 		return false, "no parameter"
 	}
@@ -596,6 +600,10 @@ func detMemo(f *ssa.Function) (bool, string) {
 					return
 				}
 				if _, isB := c.Value.(*ssa.Builtin); isB {
+					return
+				}
+				// a static call to a function outside the recursive component cannot come back here
+				if g := core.StaticCallee(c); g != nil && !c.IsInvoke() && !inComp[g] {
 					return
 				}
 				if !(lk.Block() == in2.Block() && core.Precedes(lk, in2)) && !(lk.Block() != in2.Block() && lk.Block().Dominates(in2.Block())) {
@@ -720,7 +728,7 @@ func c17(r *core.Run) {
 			if ok {
 				for _, f := range c {
 					if f.Parent() != nil {
-						mok, mwhy := detMemo(f)
+						mok, mwhy := detMemo(f, c)
 						dok, dwhy := closureDepthGuard(f)
 						ok = mok && dok
 						why = sizeWhy + "; " + mwhy + "; " + dwhy
